@@ -199,6 +199,17 @@ class Tree:
     def build(self, cfg):
         m = Module()
         root, regs = build_tree(cfg["tree"], cfg["dw"], m)
+        # "at the addresses its memory map reports": the map's own two views must tell the same story, padding of
+        # aligned windows included (the hardware is validated against the ranges below)
+        mm = root.memory_map
+        owner = {}
+        for info in mm.all_resources():
+            for a in range(info.start, info.end):
+                owner[a] = info.resource
+        for a in range(1 << mm.addr_width):
+            if mm.decode_address(a) is not owner.get(a):
+                raise common.Violation("decode-vs-ranges", f"decode_address({a}) disagrees with the ranges all_resources() reports "
+                                       f"(decoder tree {json.dumps(cfg['tree'])[:200]})")
         ins = {"addr": root.addr, "r_stb": root.r_stb, "w_stb": root.w_stb, "w_data": root.w_data}
         outs = {"r_data": root.r_data}
         for k, rc in enumerate(cfg["regs"]):
